@@ -25,6 +25,14 @@ checks = {
    technique="exhaustive enumeration of 1-3 rule programs over an action alphabet (setvar +N/-N/assign/delete/flag/macro key/macro value, capture, msg, severity, chain link actions, multiMatch) x requests with 0..3 matching values, executed on the real engine and compared with an arithmetic reference model of the TX collection",
    text="For every program and request the final TX contents, HIGHEST_SEVERITY, per-match messages, the fired rules and the threshold rule's interruption must equal the model in which each non-disruptive action runs exactly once per matched value, link actions per matched value of the link and the starter's disruptive action once per completed chain.",
    note="Trusted: the reference model in go/c09 (≈150 lines). Evaluation order inside a collection is fixed to sorted-name order by the harness (C04 owns order independence). Not generated: arithmetic on unset / non-numeric operands, macros naming unset variables (documentation silent)."),
+ "C02": dict(level="model_checking", design="§3 C02", engine="bfs",
+   technique="explicit-state breadth-first search over all sequences of 14 Transaction API calls (depth 5 quick / 7 thorough) per configuration; each state is a call history replayed on a fresh real transaction, deduplicated by a canonical key of public observations; the property's invariants are evaluated on every transition",
+   text="For a family of configurations (engine mode x runtime ctl:ruleEngine switch x position and kind of the first and a second disruptive rule x body-limit action) every call sequence a connector could produce up to the depth bound is executed on the real Transaction: first disruptive match interrupts with that rule's id/action/status/data, the interruption is final and reported by every later phase call, no rule of phases 1-4 runs afterwards while logging still does, DetectionOnly never returns or records an interruption (including the body-limit path and after a ctl switch), Off evaluates nothing, each request/response phase at most once.",
+   note="Trusted: the state key (all observations the alphabet can influence) merges only states with equal futures. Excluded by the property: calls after Close, concurrent calls on one transaction. Bounded: depth, 4-byte limits, disruptive rules in phases 1-4."),
+ "C10": dict(level="model_checking", design="§3 C10", engine="bfs",
+   technique="explicit-state breadth-first search over sequences of 13 body-supplying calls (slice writes, readers with and without known length, failing reader) per (side, limit, in-memory limit, action, processor, ctl override) configuration on the real transaction, against an arithmetic reference model checked on every transition",
+   text="Every chunking of a position-coded byte stream through every write / read-from entry point, for limits 1..5 with memory and spilled (temp file) buffering, Reject and ProcessPartial: returned (interruption, n, err), reader content, REQUEST_BODY / RESPONSE_BODY, data-error flag and body-phase count must equal the model (refusal exactly when the cumulative size reaches the limit, nothing beyond the limit stored, exactly the first limit bytes inspected once).",
+   note="Trusted: the ~60-line arithmetic model. What is supplied after a Reject is outside the property (terminal states). Response bodies are memory-only by design of the library."),
 }
 not_applicable = {}
 
